@@ -2,6 +2,7 @@ package main
 
 import (
 	"fmt"
+	"os"
 	"go/token"
 	"go/types"
 	"sort"
@@ -507,6 +508,18 @@ func (bi *batchInfo) region(r *rep.Report, l *b.Loop, role string) ([]*rpath, *l
 		sort.Strings(unrec)
 		r.Fail("path-engine", cfg, "loop "+role+": every construct is modelled", bi.pos(l.Header.Instrs[0].Pos()), "batch:unmodelled:"+role, "unmodelled constructs: "+strings.Join(unrec, "; "))
 	}
+	if os.Getenv("EDCHECK_REGIONDBG") == role {
+		for i, rp := range out {
+			cls, bad := marks(rp)
+			fmt.Printf("--- %s path %d stop=%s class=%s bad=%v\n", role, i, rp.stop, cls, bad)
+			for _, a := range rp.atoms {
+				fmt.Printf("   atom %v %.160s\n", a.Val, a.Key)
+			}
+			for _, e := range rp.events {
+				fmt.Printf("   ev %s %.200v %.160v\n", e.Callee, e.Args, e.Addrs)
+			}
+		}
+	}
 	r.Count("region-paths", len(out))
 	return out, sh
 }
@@ -716,6 +729,20 @@ func ruleBatchAll(c *Ctx, r *rep.Report, p *load.Program, rl *roles.Roles, fl *f
 						has["invoke:"+cc.Method.Name()] = true
 					} else if f := cc.StaticCallee(); f != nil {
 						has[bi.model.Name(f)+"|"+ssau.QName(f)] = true
+						// a per-entry step moved into a private helper keeps the loop's role
+						if bi.model.InlineAll != nil && bi.model.InlineAll(f) {
+							for _, hb := range f.Blocks {
+								for _, hin := range hb.Instrs {
+									if hc, ok := hin.(*ssa.Call); ok {
+										if hc.Common().IsInvoke() {
+											has["invoke:"+hc.Common().Method.Name()] = true
+										} else if g := hc.Common().StaticCallee(); g != nil {
+											has[bi.model.Name(g)+"|"+ssau.QName(g)] = true
+										}
+									}
+								}
+							}
+						}
 					}
 				}
 			}
@@ -1187,19 +1214,8 @@ func (bi *batchInfo) chunkLevel(r *rep.Report, fl *flags) {
 		okM := domBy(flagTrue, msm.Block()) && bi.inner["points"].Header.Dominates(msm.Block())
 		// count argument = 2*batchSize+1 and the heap is the local scratch
 		cnt := msm.Common().Args[len(msm.Common().Args)-1]
-		cntOK := false
-		if bo, ok := cnt.(*ssa.BinOp); ok && bo.Op == token.ADD {
-			if n, ok := constInt(bo.Y); ok && n == 1 {
-				if m, ok := bo.X.(*ssa.BinOp); ok && m.Op == token.MUL {
-					if k, ok := constInt(m.Y); ok && k == 2 && m.X == bi.bs {
-						cntOK = true
-					}
-					if k, ok := constInt(m.X); ok && k == 2 && m.Y == bi.bs {
-						cntOK = true
-					}
-				}
-			}
-		}
+		// any spelling of 2*batchSize + 1
+		cntOK := bi.ssaAffine(cnt, 0).Equal(b.Affine{Const: 1, Coef: map[string]int{"bs": 2}, OK: true})
 		r.Check(okM && cntOK, "B3-equation", cfg, "multi-scalar multiplication over 2*batchSize+1 terms, after the point phase, only while the flag is true", ssau.InstrPos(p, msm),
 			"count = 2*batchSize+1", fmt.Sprintf("msm guarded/dominated: %v, count is 2*batchSize+1: %v", okM, cntOK))
 		// batchOk = batchNeutral(&p) where p is msm's output
@@ -1630,6 +1646,22 @@ func ruleMsmFinal(r *rep.Report, p *load.Program, rl *roles.Roles) {
 		if !has {
 			continue
 		}
+		// the ladder step is the innermost loop that doubles (an outer per-limb loop may wrap an inner per-bit loop)
+		innerHas := false
+		for _, in := range l.Inner {
+			for blk := range in.Blocks {
+				for _, ins := range blk.Instrs {
+					if c, ok := ins.(*ssa.Call); ok {
+						if f := c.Common().StaticCallee(); f != nil && f.Name() == "Double" {
+							innerHas = true
+						}
+					}
+				}
+			}
+		}
+		if innerHas {
+			continue
+		}
 		nl++
 		ll := l
 		ps, err := pt.EnumerateRegion(fn, m, l.Header, func(bb *ssa.BasicBlock) bool { return bb == ll.Header || !ll.Blocks[bb] })
@@ -1647,6 +1679,9 @@ func ruleMsmFinal(r *rep.Report, p *load.Program, rl *roles.Roles) {
 			var evs []string
 			for _, e := range pa.Events {
 				evs = append(evs, e.Callee+"("+addrStr(e, 0)+","+addrStr(e, 1)+","+addrStr(e, 2)+")")
+			}
+			if len(evs) == 0 && !seenBit {
+				continue // the loop's exit test or limb bookkeeping: no scalar bit is consumed on this path
 			}
 			want := []string{"ge25519.Double(addr(P0),addr(P0),-)"}
 			if bit {
